@@ -230,6 +230,10 @@ def run_impl(case):
                 rec["out"] = out.astype(float).tolist() if out.ndim == 3 else None
                 if out.ndim != 3:
                     rec["exc"] = "NotThreeDimensional"
+                # the returned array belongs to the caller: ropt's own _perturb_variables accumulates the other
+                # samplers' output into it (`samples += ...`).  Do the same; later calls must not be affected.
+                if out.flags.writeable:
+                    out += 0.625
             except Exception as e:  # noqa: BLE001 - the exception class is the observation
                 rec["exc"] = type(e).__name__
                 rec["msg"] = str(e)[:200]
